@@ -11,15 +11,15 @@ def p3_lemmas(tier, wf_only=False, ndjson=(0, 1), ks=None):
     plan = []
     for nd in ndjson:
         if tier == "quick":
-            plan += [(2, 0, nd, 1), (2, 0, nd, 0), (3, 0, nd, 1), (3, 0, nd, 0), (5, 1, nd, 1)]
+            plan += [(2, 0, nd, 1), (2, 0, nd, 0), (3, 0, nd, 1), (3, 0, nd, 0)]
         else:
-            plan += [(K, 0, nd, cp) for K in (2, 3, 4) for cp in (1, 0)] + [(5, 1, nd, 1), (5, 1, nd, 0), (6, 1, nd, 1), (7, 1, nd, 1)]
+            plan += [(K, 0, nd, cp) for K in (2, 3, 4) for cp in (1, 0)] + [(5, 1, nd, 1), (5, 2, nd, 0), (7, 2, nd, 1), (7, 2, nd, 0), (9, 2, nd, 1)]
     if ks is not None:
         plan = [p for p in plan if p[0] in ks]
     ls = []
     for K, wset, nd, cp in plan:
-        gaps = "{1,2,4,5,8}" if wset == 0 else "{1,4,5}"
-        ls.append(Lemma("P3.machine.K%d%s.%s.%s" % (K, "" if wset == 0 else "n", "ndjson" if nd else "json", "copy" if cp else "nocopy"),
+        gaps = {0: "{1,2,4,5,8}", 1: "{1,4,5}", 2: "alternating 1 and {4,5}"}[wset]
+        ls.append(Lemma("P3.machine.K%d%s.%s.%s" % (K, {0: "", 1: "n", 2: "alt"}[wset], "ndjson" if nd else "json", "copy" if cp else "nocopy"),
                         "verifHarness_P3_Machine", FP3, splits=[{"K": K - 2, "wset": wset, "ndjson": nd, "copy": cp}],
                         split_depth=("auto" if K >= 3 else 0), intr=Stage2SummIntrinsics,
                         desc="unifiedMachine (real updateChar/peekSize over a pre-filled index channel split at arbitrary markup "
@@ -30,4 +30,57 @@ def p3_lemmas(tier, wf_only=False, ndjson=(0, 1), ks=None):
                         bound="%d structural tokens, gaps %s, message <= %d bytes; strings without escapes (escapes: lemmas S); parseNumber "
                               "= its summary (lemma P2)" % (K, gaps, (8 if wset == 0 else 5) * (K - 1) + 1),
                         expect_reach=["P3.returned"]))
+    return ls
+
+
+FU1 = ["zz_verif_tape.go", "zz_verif_wf.go", "zz_verif_t1.go", "zz_verif_p3.go", "zz_verif_u1.go"]
+SCALE_U1 = {"indexSize": "131"}     # indexSizeWithSafetyBuffer = indexSize-128 = 3: index buffers are handed over after >= 3 entries
+
+
+def u1_lemmas(tier, ndjson=(0, 1), havoc=(0, 1)):
+    plan = []
+    for nd in ndjson:
+        for hv in havoc:
+            ks = (2, 3) if tier == "quick" else (2, 3, 4)
+            if tier == "quick" and hv == 1:
+                ks = (2, 3) if nd == 0 else (2,)
+            for K in ks:
+                plan.append((K, nd, hv))
+    if tier != "quick":
+        plan += [(5, 0, 0), (5, 1, 0), (6, 0, 0)]
+    ls = []
+    for K, nd, hv in plan:
+        ls.append(Lemma("U1.parseMessage.K%d.%s.%s" % (K, "ndjson" if nd else "json", "havoc" if hv else "fresh"),
+                        "verifHarness_U1_ParseMessage", FU1,
+                        splits=[{"K": K - 2, "ndjson": nd, "havoc": hv, "copy": cp} for cp in ((1,) if tier == "quick" else (1, 0))],
+                        split_depth="auto", intr=Stage2SummIntrinsics, scale=SCALE_U1,
+                        desc="the whole synchronous parseMessage path on every message with %d structural tokens at gaps from {1,5,61} "
+                             "bytes (so messages span up to %d 64-byte blocks and, with the index limit scaled to 3, several index "
+                             "buffers with strip/restore of a dangling index), optional surrounding white space, both string modes, "
+                             "%s; stage-1 kernel = its contract (lemmas A1-A7) incl. an injected error bit at any kernel call; "
+                             "outcome = reference parser, tape well-formed and read back, index channel empty on every exit" % (
+                                 K, (61 * (K - 1)) // 64 + 1, "every reusable field of the ParsedJson havoc'd" if hv else "fresh ParsedJson"),
+                        bound="%d tokens, message <= %d bytes; index limit scaled 1408 -> 3 (indexSize 1536 -> 131); strings without escapes; "
+                              "parseNumber = its summary" % (K, 61 * (K - 1) + 1),
+                        expect_reach=["U1.returned"]))
+    return ls
+
+
+def p3_skeleton_lemmas(tier, ndjson=(0, 1)):
+    ls = []
+    for nd in ndjson:
+        n = 11 if nd == 0 else 4
+        ids = range(n) if tier != "quick" else (range(0, n, 2) if nd == 0 else range(0, n, 2))
+        for i in ids:
+            for cp in ((1,) if tier == "quick" else (1, 0)):
+                ls.append(Lemma("P3.skeleton.%s%d.%s" % ("nd" if nd else "sk", i, "copy" if cp else "nocopy"), "verifHarness_P3_Skeleton", FP3,
+                                splits=[{"ndjson": nd, "skeleton": i, "copy": cp, "split": 0, "sw": w} for w in ((0, 2) if tier == "quick" else (0, 1, 2))] +
+                                       ([] if tier == "quick" else [{"ndjson": nd, "skeleton": i, "copy": cp, "split": 1, "sw": 0}]),
+                                split_depth=0, intr=Stage2SummIntrinsics,
+                                desc="unifiedMachine on valid token skeleton #%d (%s) with, in turn, each token left completely free (every "
+                                     "single-token deviation of the skeleton and the skeleton itself), scalar slots of 1/4/5/8 symbolic bytes, "
+                                     "index stream handed over at any markup point: verdict, scope stack, tape format and contents vs the "
+                                     "reference parser" % (i, "ndjson" if nd else "json"),
+                                bound="documents up to 11 tokens (list in harness/zz_verif_p3.go), one free token at a time; strings without escapes; parseNumber = its summary",
+                                expect_reach=["P3s.returned"]))
     return ls
